@@ -276,10 +276,10 @@ def _run(ctx, mpc, tape, rng, ok):
         return got, nowrap
 
     for A in range(-128, 128):
-        for l_arg in (None, 0, 1, 2, 4, 7):
+        for l_arg in (None, rng.choice([0, 1, 2, 3, 4, 5, 6, 7])):
             do_to_bits_num(secint8, A, l_arg, bits_mode=rng.choice(['rand', 'rand', 'rand', 'zero', 'one']),
                            div_mode=rng.choice(['rand', 'rand', 'one', 'max']))
-        for l_arg in (None, 0, 2, 3, 4, 5, 8):
+        for l_arg in (None, rng.choice([0, 1, 2, 3, 4, 5, 6, 7])):
             do_to_bits_num(secfxp84, A, l_arg, bits_mode=rng.choice(['rand', 'rand', 'rand', 'zero', 'one']),
                            div_mode=rng.choice(['rand', 'rand', 'one', 'max']))
     do_to_bits_num(secint8, 5, 9)        # assert stream
@@ -469,7 +469,7 @@ def _run(ctx, mpc, tape, rng, ok):
 
     bs8 = [0, 1, 2, 4, 8, 64, -128, 96, 127, -1, 6, 80]
     for A in range(-128, 128):
-        for B in rng.sample(bs8, ctx.n(5, 12)):
+        for B in rng.sample(bs8, ctx.n(2, 12)):
             do_gcp2(secint8, A, B, None)
         do_gcp2(secint8, A, rng.choice(bs8), rng.randrange(1, 8))
     do_gcp2(secint8, 4, 8, 0)
@@ -613,8 +613,8 @@ def _run(ctx, mpc, tape, rng, ok):
 
     fnames = list(forms(0))
     enames = list(e_forms(0))
-    full_upto = ctx.n(3, 4)
-    per_list = ctx.n(10, 30)
+    full_upto = ctx.n(2, 4)
+    per_list = ctx.n(6, 30)
     for n in range(0, 8):
         for xb in itertools.product((0, 1), repeat=n):
             xs = list(xb)
@@ -624,7 +624,7 @@ def _run(ctx, mpc, tape, rng, ok):
             for (a, asec, en, fn) in combos:
                 do_find(xs, a, asec, True, en, fn)
     # bits=False: arbitrary values
-    for _ in range(ctx.n(500, 3000)):
+    for _ in range(ctx.n(300, 3000)):
         n = rng.choice([0, 1, 2, 3, 4, 5, 6, 7, 8, 9, 12, 16])
         xs = [rng.randrange(-2, 4) for _ in range(n)]
         a = rng.choice(xs) if xs and rng.random() < 0.6 else rng.randrange(-2, 5)
@@ -645,26 +645,39 @@ def _run(ctx, mpc, tape, rng, ok):
         do_find(xs, a, rng.random() < 0.5, True, rng.choice(enames), rng.choice(fnames), stype=secint16)
 
     # ---------------------------------------------------------------- model evaluation
-    ctx.log('%d implementation cases; evaluating %d model expressions in Coq' % (ctx.evaluations, len(exprs)))
+    # cases of the same result type are evaluated in batches: one Coq list per Eval
+    groups, gmeta = [], []
+    bykind = {}
+    for e, (impl, key, what) in zip(exprs, expect):
+        bykind.setdefault(what, []).append((e, impl, key))
+    for what, items in bykind.items():
+        for i in range(0, len(items), 25):
+            part = items[i:i + 25]
+            groups.append('[%s]' % '; '.join('(%s)' % e for e, _, _ in part))
+            gmeta.append((what, part))
+    ctx.log('%d implementation cases; evaluating %d model expressions in Coq (%d batches)' % (
+        ctx.evaluations, len(exprs), len(groups)))
     if ok:
-        res = ctx.coq_eval(['MPyC.Bits', 'MPyC.FindUnit'], exprs, preamble='Open Scope Z_scope.', chunk=400)
+        res = ctx.coq_eval(['MPyC.Bits', 'MPyC.FindUnit'], groups, preamble='Open Scope Z_scope.',
+                           chunk=max(1, (len(groups) + 13) // 14), jobs=14)
         mism = 0
-        for r, (impl, key, what) in zip(res, expect):
-            if isinstance(r, tuple) and r and r[0] == 'ERROR':
-                mism += 1
-                ctx.broken.append({'kind': 'correspondence', 'what': 'coq evaluation failed: ' + what, 'case': key,
-                                   'detail': r[1]})
+        for rs, (what, part) in zip(res, gmeta):
+            if (isinstance(rs, tuple) and rs and rs[0] == 'ERROR') or not isinstance(rs, list) or len(rs) != len(part):
+                mism += len(part)
+                ctx.broken.append({'kind': 'correspondence', 'what': 'coq evaluation failed: ' + what,
+                                   'case': part[0][2], 'detail': str(rs)[:600]})
                 continue
-            if what == 'from_bits':
-                got, p = impl
-                agree = (r % p if p else r) == got
-            else:
-                agree = norm(r) == norm(impl)
-            if not agree:
-                mism += 1
-                if len(ctx.broken) < 50:
-                    ctx.broken.append({'kind': 'correspondence', 'what': what, 'case': key, 'model': str(r)[:300],
-                                       'impl': str(impl)[:300]})
+            for r, (e, impl, key) in zip(rs, part):
+                if what == 'from_bits':
+                    got, p = impl
+                    agree = (r % p if p else r) == got
+                else:
+                    agree = norm(r) == norm(impl)
+                if not agree:
+                    mism += 1
+                    if len(ctx.broken) < 50:
+                        ctx.broken.append({'kind': 'correspondence', 'what': what, 'case': key, 'model': str(r)[:300],
+                                           'impl': str(impl)[:300]})
         ctx.extra['traces_validated_against_impl'] = len(exprs) - mism
         ctx.log('model/implementation disagreements: %d' % mism)
     if ctx.broken and not ctx.violations:
